@@ -11,20 +11,21 @@ import (
 )
 
 type Layout struct {
-	Name   string
-	Sep    string // between ordinary tokens
-	Tight  bool   // no separator next to punctuation
-	Soft   string // "line" | "blank" | "space" | "none"
-	NL     string
-	Indent bool
+	Name      string
+	Sep       string // between ordinary tokens
+	Tight     bool   // no separator next to punctuation
+	Soft      string // "line" | "blank" | "space" | "none"
+	NL        string
+	Indent    bool
+	NoFinalNL bool // the text ends with its last token
 }
 
 var Layouts = []Layout{
 	{Name: "std", Sep: " ", Soft: "line", NL: "\n", Indent: true},
 	{Name: "crlf", Sep: " ", Soft: "line", NL: "\r\n", Indent: true},
-	{Name: "oneline", Sep: " ", Soft: "space", NL: "\n"},
+	{Name: "oneline", Sep: " ", Soft: "space", NL: "\n", NoFinalNL: true},
 	{Name: "airy", Sep: " \t ", Soft: "blank", NL: "\n", Indent: true},
-	{Name: "tight", Sep: " ", Tight: true, Soft: "none", NL: "\n"},
+	{Name: "tight", Sep: " ", Tight: true, Soft: "none", NL: "\n", NoFinalNL: true},
 	{Name: "gappy", Sep: "  ", Soft: "gaps", NL: "\n", Indent: false}, // three empty lines wherever an empty line may go
 }
 
@@ -95,7 +96,9 @@ func Render(tokens []string, l Layout) string {
 			depth++
 		}
 	}
-	b.WriteString(l.NL)
+	if !l.NoFinalNL {
+		b.WriteString(l.NL)
+	}
 	return b.String()
 }
 
